@@ -31,6 +31,10 @@ pub struct NodeDecl {
     /// the module shuts itself down in its first start-up stage; its remaining declared stages are still delivered
     #[serde(default)]
     pub shutdown_in_stage0: bool,
+    /// the module panics when it handles its ping (default stereotype: the panic is not caught, run() returns an
+    /// error); every module - also this one - is still torn down exactly once after the last event
+    #[serde(default)]
+    pub panic_on_ping: bool,
 }
 
 #[derive(Debug, Clone, Serialize, Deserialize, PartialEq)]
@@ -72,6 +76,7 @@ struct Node {
     children: Vec<(String, String)>,
     ping_ns: Option<u64>,
     end_err: bool,
+    panic_on_ping: bool,
     shutdown_on_ping: bool,
     shutdown_in_stage0: bool,
     /// paths of modules that shut themselves down during the run (a lookup may then report them as inactive)
@@ -129,6 +134,9 @@ impl Module for Node {
     fn handle_message(&mut self, _: Message) {
         LOG.with(|l| l.borrow_mut().push(Ev::Msg(self.idx)));
         self.lookups();
+        if self.panic_on_ping {
+            panic!("injected: module {} fails while handling its ping", self.idx);
+        }
         if self.shutdown_on_ping {
             current().shutdown();
         }
@@ -169,10 +177,11 @@ fn make_node(case: &Case, i: usize) -> Node {
         children: (0..case.nodes.len()).filter(|c| case.nodes[*c].parent == Some(i)).map(|c| (case.nodes[c].name.clone(), case.path(c))).collect(),
         ping_ns: d.ping_ns,
         end_err: d.end_err,
+        panic_on_ping: d.panic_on_ping,
         shutdown_on_ping: d.shutdown_on_ping,
         shutdown_in_stage0: d.shutdown_in_stage0,
         may_be_down: (0..case.nodes.len())
-            .filter(|c| (case.nodes[*c].shutdown_on_ping && case.nodes[*c].ping_ns.is_some()) || case.nodes[*c].shutdown_in_stage0)
+            .filter(|c| ((case.nodes[*c].shutdown_on_ping || case.nodes[*c].panic_on_ping) && case.nodes[*c].ping_ns.is_some()) || case.nodes[*c].shutdown_in_stage0)
             .map(|c| case.path(c))
             .collect(),
     }
@@ -258,9 +267,10 @@ pub fn execute(case: &Case) -> (Vec<Finding>, usize) {
             if !nodes_ok {
                 f.push(("nodes", "Sim::nodes() differs from the declared set of paths".into()));
             }
-            let err_expected = case.nodes.iter().any(|d| d.end_err);
+            let panics = case.nodes.iter().filter(|d| d.panic_on_ping && d.ping_ns.is_some() && d.stages > 0 && !d.shutdown_in_stage0).count();
+            let err_expected = case.nodes.iter().any(|d| d.end_err) || panics > 0;
             if ok == err_expected {
-                f.push(("run-error", format!("run() returned {}, {} module(s) report an error from at_sim_end", if ok { "Ok" } else { "an error" }, case.nodes.iter().filter(|d| d.end_err).count())));
+                f.push(("run-error", format!("run() returned {}, {} module(s) report an error from at_sim_end, {panics} panic while handling a message", if ok { "Ok" } else { "an error" }, case.nodes.iter().filter(|d| d.end_err).count())));
             }
         }
     }
@@ -466,6 +476,7 @@ pub fn gen_tree(rng: &mut Rng, n: usize) -> Vec<NodeDecl> {
             end_err: rng.chance(1, 12),
             shutdown_on_ping: rng.chance(1, 10),
             shutdown_in_stage0: rng.chance(1, 12),
+            panic_on_ping: rng.chance(1, 14),
         });
     }
     nodes
@@ -551,6 +562,9 @@ pub fn cmd(args: &Args) -> Report {
             let shares_prefix = case.nodes.iter().any(|a| case.nodes.iter().any(|b| a.parent == b.parent && a.name != b.name && b.name.starts_with(&a.name)));
             if shares_prefix {
                 rep.count("trees_with_prefix_sharing_siblings", 1);
+            }
+            if case.nodes.iter().any(|d| d.panic_on_ping && d.ping_ns.is_some() && d.stages > 0 && !d.shutdown_in_stage0) {
+                rep.count("trees_with_a_module_that_panics_during_the_run", 1);
             }
             if findings.is_empty() && case.nodes.len() >= 3 && case.nodes.iter().any(|x| x.parent.is_some()) {
                 rep.nontrivial(case_hash(&case));
